@@ -41,6 +41,13 @@ Theorem sorted_statuses_canonical : forall sts sts',
 Proof. intros sts sts' H. split; [apply sort_statuses_canonical; exact H|apply sort_statuses_sorted]. Qed.
 Print Assumptions sorted_statuses_canonical.
 
+(* findings: sorted by (reference, extra); the sequence of these keys depends on the multiset only *)
+Theorem sorted_findings_canonical : forall fs fs',
+  Permutation fs fs' ->
+  map fkey (sort_findings fs) = map fkey (sort_findings fs') /\ sorted_b cmp_findings (sort_findings fs) = true.
+Proof. intros fs fs' H. split; [apply sort_findings_canonical; exact H|apply sort_findings_sorted]. Qed.
+Print Assumptions sorted_findings_canonical.
+
 (* Several roots.  The statement "Run over roots = union of Run over each root, no package twice" is
    REFUTED for the code as it is: with two roots the first root's package is reported twice and the plugin
    gets two status entries. *)
